@@ -80,7 +80,6 @@ def classifyAof (point : String) (now2 : Int) (log : Bytes) (preEmpty : Bool) (p
   if point == "hang" then (if stuck then "rewrite-after-failed-write-hangs" else "-")
   else if point == "redurable" then "torn-tail-blocks-later-appends"
   else if preBeingWritten then "rewrite-crash-mid-preamble-loses-dataset"
-  else if cands.any hasNonZeroDb || cmds.any (fun c => eqFold (c.headD []) (b "select") && c.getD 1 [] != b "0") then "log-replay-ignores-database"
   else if badMarker then "unreadable-select-header-hides-log"
   else if cmds.any isRelExpiry then "relative-expiry-replayed-at-restore-time"
   else if cmds.any (fun c => match absDeadlineOf c with | some t => decide (t ≤ now2) | none => false) then "deadline-passed-before-replay"
